@@ -65,7 +65,8 @@ def canon(x, keep_values=False):
         return [canon(x.real, keep_values), canon(x.imag, keep_values)]
     if isinstance(x, np.ndarray):
         if keep_values and x.size <= 64:
-            return {'shape': list(x.shape), 'dtype': str(x.dtype), 'values': x.tolist()}
+            vals = np.stack([x.real, x.imag], axis=-1).tolist() if x.dtype.kind == 'c' else x.tolist()
+            return {'shape': list(x.shape), 'dtype': str(x.dtype), 'values': vals}
         a = np.ascontiguousarray(x)
         if a.dtype == object:
             sha = hashlib.sha1(repr(a.tolist()).encode()).hexdigest()[:16]
